@@ -18,6 +18,8 @@ TRUSTED = ["text layer of names: modelled (Zc.NameText: strip one trailing dot, 
            "(`=<hex of its UTF-8>`) and splits/encodes itself; CPython's str.split / str.encode / bytes.decode are the reference it is compared with",
            "lone surrogates in names (UnicodeEncodeError) are not text and are not generated",
            "remaining-TTL arithmetic on integer milliseconds only",
+           "the theorems are about messages as values; the library's entry objects are shared between messages: explored (every 5th message has a twin in the "
+           "other mode built from the same objects), not modelled; likewise add_answer() and a second packets() call",
            "Zeroconf.async_send is driven with a recording transport on an object made by Zeroconf.__new__ (no sockets, no loop): only the loop over "
            "out.packets() and its size guard are exercised"]
 ASSUMPTIONS = ["names are handed to the builder as str; what must come back is the same str (with its trailing dot) from the library's decoder and from "
@@ -83,9 +85,14 @@ def impl_send(out):
         zc.done = False
         zc.engine = SimpleNamespace(senders=[_WrappedTransport(rec, False, None, 7, ("127.0.0.1", 5353))])
         zc.async_send(out)
-        return ("ok", rec.sent)
+        # the same to an explicit address (a unicast reply): `async_send_with_transport` picks the address and hands every
+        # datagram to the transport -- none may be lost on that way either
+        rec2 = _Recorder()
+        zc.engine = SimpleNamespace(senders=[_WrappedTransport(rec2, False, None, 7, ("127.0.0.1", 5353))])
+        zc.async_send(out, "192.168.1.9", 5353)
+        return ("ok", rec.sent, rec2.sent)
     except Exception as ex:  # noqa: BLE001
-        return ("err", type(ex).__name__)
+        return ("err", type(ex).__name__, None)
 
 
 def lib_decode(pkt):
@@ -451,6 +458,12 @@ def run_prop(ctx, prop, size_bias=None):
                 # a query that splits inside its question section, names without trailing dot, first datagram on 1460 / 1461
                 m = qsplit_seek(g.qsplit_message(), rng)
                 kind = "valid:qsplit"
+        if kind.startswith("valid") and i % 5 == 1 and len(m.entries()) <= 120:
+            # the message and its twin in the other mode are built from the SAME library entry objects
+            m.objs = {}
+            cases.append((kind, m))
+            cases.append(("valid:twin", m.twin()))
+            continue
         cases.append((kind, m))
     # implementation
     impl = []
@@ -515,6 +528,12 @@ def run_prop(ctx, prop, size_bias=None):
                      max((len(p) for p in iv), default=0) > 1460 if ik == "ok" else None))
         res.count("outcome:" + (ik if ik in ("ok", "oversize", "twice") else iv))
         res.count("packets:%s" % ("1" if npk == 1 else "2-5" if 2 <= npk <= 5 else ">5" if npk > 5 else "0"))
+        if kind == "valid:twin":
+            res.count("entry-objects:message-built-from-the-objects-of-its-twin-in-the-other-mode")
+        if getattr(m, "via_add_answer", False) and any(not r.now for r in m.an):
+            res.count("api:answers-added-with-add_answer")
+        nlab = max((len(W.labels_of(nm)) for e in m.entries() for nm in e.names()), default=0)
+        res.count("labels-per-name:max-%s" % ("<=23" if nlab <= 23 else "24-64" if nlab <= 64 else ">64"))
         if ik == "ok":
             for p in iv:
                 res.count("size:" + ("<=1460" if len(p) <= 1460 else "<=8966" if len(p) <= 8966 else ">8966"))
@@ -560,20 +579,25 @@ def run_prop(ctx, prop, size_bias=None):
             res.violate(sig, what, case)
         # the send path: every datagram the builder made (all are <= 8966 here) leaves, once, in order
         if sent[k] is not None:
-            sk, sv = sent[k]
+            sk, sv, sv2 = sent[k]
             if model is not None and k in send_out:
-                io = str(len(sv)) if sk == "ok" else "err " + sv
-                if io != send_out[k].strip():
-                    res.disagree("send", case, io, send_out[k][:100])
+                for how, got in (("default address", sv), ("explicit address", sv2)):
+                    io = str(len(got)) if sk == "ok" else "err " + sv
+                    if io != send_out[k].strip():
+                        res.disagree("send", case, io + " (" + how + ")", send_out[k][:100])
             if inq(m, prop):
                 if sk != "ok":
                     res.violate("%s:send-path-raises:%s" % (prop, sv), "Zeroconf.async_send raised %s for a message the builder turned into datagrams" % sv, case)
-                elif sv != iv:
-                    first = next((j for j, p in enumerate(iv) if j >= len(sv) or sv[j] != p), len(iv))
-                    size = len(iv[first]) if first < len(iv) else -1
-                    res.violate("%s:send-path-drops-datagram-of-%s-bytes" % (prop, "exactly-8966" if size == 8966 else "at-most-8965" if 0 <= size else "no"),
-                                "the builder made datagrams of %s bytes, async_send let %s bytes leave: datagram %d (%d bytes, within the 8966 limit) and everything "
-                                "behind it is not sent" % ([len(p) for p in iv][:8], [len(p) for p in sv][:8], first + 1, size), case)
+                else:
+                    for how, got in (("", sv), ("-to-explicit-address", sv2)):
+                        if got != iv:
+                            first = next((j for j, p in enumerate(iv) if j >= len(got) or got[j] != p), len(iv))
+                            size = len(iv[first]) if first < len(iv) else -1
+                            cls = "exactly-8966" if size == 8966 else "over-1460" if size > 1460 else "at-most-1460" if 0 <= size else "no"
+                            res.violate("%s:send-path%s-drops-datagram-of-%s-bytes" % (prop, how, cls),
+                                        "the builder made datagrams of %s bytes, async_send%s let %s bytes leave: datagram %d (%d bytes, within the 8966 limit) "
+                                        "is not sent" % ([len(p) for p in iv][:8], " (addr 192.168.1.9, port 5353)" if how else "", [len(p) for p in got][:8], first + 1, size), case)
+                            break
     # the text layer on its own: sequences of write_name(str) on one packet, bytes and the str-keyed names table
     T.write_stream(res, rng, ctx["tier"], model is not None, g.name)
     return res
